@@ -271,7 +271,7 @@ def lockstep(out, S, flag, L, d, stop, site, cls):
     E = S.emb[flag][1]
     Mt = E.T @ E
     iso = float(np.abs(Mt - Mt[0, 0] * np.eye(nv)).max()) < 1e-12      # reduced variables <-> stacked frame is a scaled isometry
-    info = {"status": "stopped", "n": n, "not_descent": 0.0, "alpha_min": min(al), "clipped": False}
+    info = {"status": "stopped", "n": n, "not_descent": 0.0, "alpha_min": min(al), "clipped": False, "iso": iso}
     for k in range(n):
         x, y, a = xs[k], ys[k], al[k]
         if L.clip_margin(x) < CLIP_GUARD or L.clip_margin(xs[k + 1]) < CLIP_GUARD:
@@ -477,17 +477,18 @@ def execute(family, p, seed):
     digs = []
     nontrivial = False
 
-    def judge(site, cls, xs_hat, fhat, tol, tolk, gnorm, flag, v, L, cause_fn):
+    def judge(label, cls, xs_hat, fhat, tol, tolk, gnorm, flag, v, L, cause_fn):
         """end-to-end verdicts for one estimate; returns True when it is an (approximate) minimiser"""
+        site = label.split("_")[0]
         okay = True
         gb, c = M.gap_bound(S, flag, v, L.grad(v))
-        bucket(out, "kkt_" + site, gb / tolk)
+        bucket(out, "kkt_" + label, gb / tolk)
         cause = None
         excess = None
         if ref is not None:
             excess = fhat - ref[1]
             out.count("excess_judged")
-            bucket(out, "excess_" + site, excess / tol)
+            bucket(out, "excess_" + label, excess / tol)
         if CAL:
             with open(CAL, "a") as fh:
                 fh.write("%s %s %s %s excess=%.3e tol=%.3e kkt=%.3e tolk=%.3e gnorm=%.2e gapref=%.1e\n" % (
@@ -558,7 +559,7 @@ def execute(family, p, seed):
 
                 def cause_fn(ls=ls):
                     return "direction-not-descent-in-variable-metric" if ls["not_descent"] > 1.0 else "cause-unknown"
-                healthy = judge(site, cls + ":" + mode, xs_hat, L.value(v), tol, tolk, gnorm, flag, v, L, cause_fn)
+                healthy = judge(site if ls["iso"] else site + "_noniso", cls + ":" + mode, xs_hat, L.value(v), tol, tolk, gnorm, flag, v, L, cause_fn)
                 if ls["not_descent"] > 1.0:
                     out.count("runs_with_non_descent_direction")
                 estimates.append(("pgdb:%s:%s:%s" % (cls, mode, nhist), xs_hat, tol, healthy, cls))
